@@ -340,6 +340,11 @@ func (so *stateObject) deepCopy(db *StateDB) *stateObject {
 	stateObject.suicided = so.suicided
 	stateObject.dirtyCode = so.dirtyCode
 	stateObject.deleted = so.deleted
+	if so.delegations != nil {
+		stateObject.delegations = make(common.SortedAddresses, len(so.delegations))
+		copy(stateObject.delegations, so.delegations)
+	}
+	stateObject.dirtyDlgs = so.dirtyDlgs
 	return stateObject
 }
 
